@@ -7,6 +7,7 @@ package main
 import (
 	"bufio"
 	"encoding/json"
+	"flag"
 	"fmt"
 	"io"
 	"os"
@@ -22,9 +23,10 @@ import (
 
 // Scenario: a program with exactly one failing node.
 type Scenario struct {
-	Cfg  prog.Cfg  `json:"cfg"`
-	Prog prog.Prog `json:"prog"`
-	Node int       `json:"node"`
+	Cfg   prog.Cfg  `json:"cfg"`
+	Prog  prog.Prog `json:"prog"`
+	Node  int       `json:"node"`
+	Chunk int       `json:"chunk,omitempty"` // vector size for this scenario (0: the default, 128)
 }
 
 // Outcome is what the child reports for one scenario.
@@ -94,7 +96,11 @@ func child() {
 			s = prog.Start(sc.Cfg)
 			sessions[key] = s
 		}
+		if sc.Chunk > 0 {
+			flag.Set("bigslice-internal-default-chunk-rows", fmt.Sprint(sc.Chunk))
+		}
 		o, _ := prog.RunOnce(s, sc.Prog, "", 20*time.Second)
+		flag.Set("bigslice-internal-default-chunk-rows", "128")
 		out := Outcome{Err: o.Err, Msg: o.ErrMsg, Fires: o.Fires, Obs: o, Wall: o.Wall}
 		if o.Err == "timeout" || o.Err == "hang" {
 			// the session may be wedged; the follow-up is still attempted, briefly
@@ -237,7 +243,7 @@ func genScenario(r *vf.Rand, i int) (Scenario, bool) {
 	case "readerfunc", "writerfunc":
 		modes = []string{"error", "temp", "panic", "temp"}
 	case "scan":
-		modes = []string{"error", "panic"}
+		modes = []string{"error", "panic", "temp"}
 	case "repartition":
 		modes = []string{"panic", "badpart", "badpart"}
 	default:
@@ -245,9 +251,7 @@ func genScenario(r *vf.Rand, i int) (Scenario, bool) {
 	}
 	f := &prog.Fail{Mode: modes[r.Intn(len(modes))], Shard: -1, Row: r.Pick([]int{1, 1, 1, 2, 2, 5, 128, 129, 100000})}
 	if f.Mode == "temp" {
-		// persistent temporary failures on bigmachine run into the known unbounded
-		// RetryCall loop and cost a full timeout each: keep them rare
-		f.Once = r.Bool() || (i%2 == 1 && r.Chance(2, 3))
+		f.Once = r.Bool()
 	}
 	p.Nodes[k].Fail = f
 	cfg := prog.Cfg{Kind: "local", Parallelism: 4}
@@ -257,7 +261,7 @@ func genScenario(r *vf.Rand, i int) (Scenario, bool) {
 			cfg.MachCombiner = true
 		}
 	}
-	return Scenario{cfg, p, k}, true
+	return Scenario{cfg, p, k, 0}, true
 }
 
 // matrix is the fixed part of every run: for each executor kind, every failure
@@ -278,10 +282,10 @@ func matrix() []Scenario {
 	mk := func(nodes ...prog.Node) prog.Prog { return prog.Prog{Nodes: nodes} }
 	with := func(n prog.Node, fl *prog.Fail) prog.Node { n.Fail = fl; return n }
 	var ps []pn
-	for _, fl := range []*prog.Fail{f("error", 1, false, false), f("panic", 2, false, false), f("temp", 1, true, false)} {
+	for _, fl := range []*prog.Fail{f("error", 1, false, false), f("panic", 2, false, false), f("temp", 1, true, false), f("temp", 1, false, false)} {
 		ps = append(ps, pn{mk(with(rdr, fl), prog.Node{Op: "reduce", In: []int{0}, Comb: "sum"}), 0})
 	}
-	for _, fl := range []*prog.Fail{f("error", 1, false, false), f("error", 1, false, true), f("panic", 1, false, false), f("temp", 1, true, false)} {
+	for _, fl := range []*prog.Fail{f("error", 1, false, false), f("error", 1, false, true), f("panic", 1, false, false), f("temp", 1, true, false), f("temp", 2, false, false)} {
 		ps = append(ps, pn{mk(src, with(prog.Node{Op: "writerfunc", In: []int{0}}, fl), prog.Node{Op: "reshuffle", In: []int{1}}), 1})
 	}
 	ps = append(ps, pn{mk(src, with(prog.Node{Op: "map", In: []int{0}, Exprs: []prog.Expr{col0, {K: "col", I: 1}}}, f("panic", 2, false, false))), 1})
@@ -295,13 +299,27 @@ func matrix() []Scenario {
 	ps = append(ps, pn{mk(src, with(prog.Node{Op: "repartition", In: []int{0}, Exprs: []prog.Expr{col0}}, f("panic", 1, false, false))), 1})
 	ps = append(ps, pn{mk(src, with(prog.Node{Op: "repartition", In: []int{0}, Exprs: []prog.Expr{col0}}, f("badpart", 2, false, false))), 1})
 	ps = append(ps, pn{mk(src, with(prog.Node{Op: "scan", In: []int{0}}, f("error", 1, false, false))), 1})
+	ps = append(ps, pn{mk(src, with(prog.Node{Op: "scan", In: []int{0}}, f("temp", 1, false, false))), 1})
+	ps = append(ps, pn{mk(src, with(prog.Node{Op: "scan", In: []int{0}}, f("temp", 2, true, false))), 1})
 	ps = append(ps, pn{mk(src, prog.Node{Op: "reduce", In: []int{0}, Comb: "sum"}, with(prog.Node{Op: "scan", In: []int{1}}, f("panic", 1, false, false))), 2})
 	var out []Scenario
 	for _, cfg := range []prog.Cfg{{Kind: "local", Parallelism: 4}, {Kind: "bigmachine", Parallelism: 4, Procs: 2}, {Kind: "bigmachine", Parallelism: 4, Procs: 2, MachCombiner: true}} {
 		for _, x := range ps {
-			out = append(out, Scenario{cfg, x.p, x.node})
+			out = append(out, Scenario{cfg, x.p, x.node, 0})
 		}
 	}
+	// the combiner is first called when the spilled runs of a machine combiner are merged
+	// at commit time: keys distinct inside each task (so neither the task table nor the
+	// shared buffer combines anything), more keys than the buffer holds before it spills
+	// (100 vectors; the vector size is 4 rows in this scenario)
+	const nk = 1000
+	big := [][]int64{make([]int64, 2*nk), make([]int64, 2*nk)}
+	for i := 0; i < 2*nk; i++ {
+		big[0][i], big[1][i] = int64(i%nk), 1
+	}
+	out = append(out, Scenario{prog.Cfg{Kind: "bigmachine", Parallelism: 1, Procs: 1, MachCombiner: true},
+		mk(prog.Node{Op: "const", N: 2, Types: []string{"i", "i"}, Cols: big},
+			with(prog.Node{Op: "reduce", In: []int{0}, Comb: "sum"}, f("panic", 1, false, false))), 1, 4})
 	return out
 }
 
@@ -340,6 +358,9 @@ func main() {
 		n := sc.Prog.Nodes[sc.Node]
 		site, mode := siteOf(n.Op), n.Fail.Mode
 		errT := "E" + strings.ToUpper(o.Err[:1]) + o.Err[1:]
+		if o.Err == "crash" {
+			errT = "EPanic" // the driver process died: a panic nobody recovered
+		}
 		obsT := vf.App("mkObs", errT, "[]", "[]", "[]", "EOk", "[]", "[]")
 		if o.Err != "crash" && o.Err != "hang" {
 			obsT = o.Obs.Term()
